@@ -159,19 +159,19 @@ func (exec *Executor) execMethodDouble(
 		var err error
 		double, err = val.Float64()
 		if err != nil {
-			return statusFailed, fmt.Errorf(
+			return exec.returnVerboseError(fmt.Errorf(
 				`%w: argument %q of jsonpath item method %v is invalid for type %v`,
-				ErrExecution, val, name, "double precision",
-			)
+				ErrVerbose, val, name, "double precision",
+			))
 		}
 	case string:
 		var err error
 		double, err = strconv.ParseFloat(val, 64)
 		if err != nil {
-			return statusFailed, fmt.Errorf(
+			return exec.returnVerboseError(fmt.Errorf(
 				`%w: argument %q of jsonpath item method %v is invalid for type %v`,
-				ErrExecution, val, name, "double precision",
-			)
+				ErrVerbose, val, name, "double precision",
+			))
 		}
 	default:
 		return exec.returnVerboseError(fmt.Errorf(
